@@ -10,6 +10,7 @@
    Traces recorded from the real AIOKafkaConsumer under the simulator must be accepted by
    [run] and [arun] (correspondence, harness/c03.py).  Proofs: proof/C03_lists.v, C03_main.v. *)
 From Coq Require Import ZArith List Bool Lia.
+From Verif Require Import DispatchActs FetchDispatch C03_dispatch.
 From Verif Require Import C03_Fetcher C03_lists C03_main.
 Import ListNotations.
 Open Scope Z_scope.
@@ -231,6 +232,37 @@ Example c03_ex_app_accepted :
                   APause; AResume; ADeliver 7; ADeliver 9; APosition 10; ADeliver 10; APosition 11]
   = inl (Some 11, [(0, 3, [0; 1; 2]); (7, 11, [7; 9; 10])]).
 Proof. vm_compute. reflexivity. Qed.
+
+(* ---- the per-partition error dispatch of a Fetch response, regenerated from Fetcher._proc_fetch_request
+   on every run (translator/dispatch2gallina.py) and validated against the real method for every code
+   -1..100 with and without a reset policy ------------------------------------------------------------ *)
+
+(* for every integer error code: only OFFSET_OUT_OF_RANGE (with a reset policy) makes the consumer give
+   up its position - no other error reply can skip or repeat records *)
+Theorem c03_only_out_of_range_moves_position : forall c p,
+  has AAwaitReset (fetchDispatch c p) = true -> c = OFFSET_OUT_OF_RANGE /\ p = true.
+Proof. exact only_out_of_range_moves_position. Qed.
+Print Assumptions c03_only_out_of_range_moves_position.
+
+Theorem c03_errors_surfaced_only_for : forall c p,
+  has ASetError (fetchDispatch c p) = true ->
+  (c = OFFSET_OUT_OF_RANGE /\ p = false) \/ c = TOPIC_AUTHORIZATION_FAILED.
+Proof. exact errors_surfaced_only_for. Qed.
+Print Assumptions c03_errors_surfaced_only_for.
+
+Theorem c03_out_of_range_follows_policy :
+  fetchDispatch OFFSET_OUT_OF_RANGE true = [AAwaitReset] /\ fetchDispatch OFFSET_OUT_OF_RANGE false = [ASetError].
+Proof. exact out_of_range_follows_policy. Qed.
+Print Assumptions c03_out_of_range_follows_policy.
+
+Theorem c03_leader_errors_refresh_metadata : forall c p, In c [3; 6]%Z -> fetchDispatch c p = [AMetadataUpdate].
+Proof. exact leader_errors_refresh_metadata. Qed.
+Print Assumptions c03_leader_errors_refresh_metadata.
+
+Theorem c03_other_errors_change_nothing : forall c p,
+  ~ In c fetchDispatch_named_codes -> fetchDispatch c p = [].
+Proof. exact other_errors_change_nothing. Qed.
+Print Assumptions c03_other_errors_change_nothing.
 
 (* the model rejects what the property forbids: a repeated record, a skipped record, a record
    of a paused partition, data from a stale reply *)
